@@ -2,10 +2,16 @@ package main
 
 import (
 	"bytes"
+	"crypto/aes"
 	"fmt"
+	"net"
 	"reflect"
+	"sync/atomic"
+	"time"
 
 	"github.com/Tnze/go-mc/nbt"
+	mcnet "github.com/Tnze/go-mc/net"
+	"github.com/Tnze/go-mc/net/CFB8"
 	pk "github.com/Tnze/go-mc/net/packet"
 	"github.com/Tnze/go-mc/verifshim/sched"
 )
@@ -31,30 +37,35 @@ func appendVarInt(b []byte, v int32) []byte {
 	}
 }
 
-// marshalFields is the menu of field lists: (thread, round) -> VarInt, String, ByteArray of a size
-// class below and above the compression threshold used by the scenario.
+// marshalRounds is the number of packets each thread sends; marshalSizes are the size classes of the
+// ByteArray field: below the small threshold, above it, and larger than any buffer the library or
+// bytes.Buffer starts with (a payload that a packer might treat as "large").
+const marshalRounds = 3
+
+var marshalSizes = [marshalRounds]int{2, 24, 700}
+
+// marshalThresholds is the menu of compression settings: off; 32 (the small size class travels
+// uncompressed inside the compressed format, the others compressed); 4096 (every size class travels
+// uncompressed inside the compressed format).
+var marshalThresholds = []int{-1, 32, 4096}
+
+// marshalFields is the menu of field lists: (thread, round) -> VarInt, String, ByteArray; the threads
+// walk the size classes in different orders so that every pair of classes meets in the pools.
 func marshalFields(t, round int) (n int32, s string, arr []byte) {
 	n = int32(300*t + round)
 	s = fmt.Sprintf("stream-%d/%d", t, round)
-	size := 2 + t
-	if (t+round)%2 == 1 {
-		size = 24 + 3*t
-	}
+	size := marshalSizes[(round+t-1)%marshalRounds] + 3*t
 	return n, s, bytes.Repeat([]byte{byte(0x10*t + round + 1)}, size)
 }
 
-func marshalScenario(threads int, compress bool) Scenario {
-	name := fmt.Sprintf("marshal-pack-unpack-scan/threads=%d/compress=%v", threads, compress)
-	return Scenario{Name: name, Horizon: 6000, Body: func(x *Exec) {
-		threshold := -1
-		if compress {
-			threshold = 16
-		}
+func marshalScenario(threads int, threshold int) Scenario {
+	name := fmt.Sprintf("marshal-pack-unpack-scan/threads=%d/threshold=%d", threads, threshold)
+	return Scenario{Name: name, Horizon: 8000, Body: func(x *Exec) {
 		var hs []sched.Handle
 		for t := 1; t <= threads; t++ {
 			t := t
 			hs = append(hs, sched.GoJoinable(fmt.Sprintf("marshal%d", t), func() {
-				for round := 0; round < 2; round++ {
+				for round := 0; round < marshalRounds; round++ {
 					n, s, arr := marshalFields(t, round)
 					want := appendVarInt(nil, n)
 					want = appendVarInt(want, int32(len(s)))
@@ -63,7 +74,7 @@ func marshalScenario(threads int, compress bool) Scenario {
 					want = append(want, arr...)
 
 					var p pk.Packet
-					if round == 0 {
+					if round != 1 {
 						p = pk.Marshal(int32(t), pk.VarInt(n), pk.String(s), pk.ByteArray(arr))
 					} else {
 						// the same packer, spelled with the exported Builder
@@ -74,7 +85,7 @@ func marshalScenario(threads int, compress bool) Scenario {
 					}
 					sched.Point("after-marshal") // a peer may now reuse whatever Marshal returned to a pool
 					if p.ID != int32(t) || !bytes.Equal(p.Data, want) {
-						x.fail("marshalled packet differs from its fields (foreign bytes): thread %d round %d holds id=%d %x, its fields give %x", t, round, p.ID, p.Data, want)
+						x.fail("marshalled packet holds foreign bytes: thread %d round %d holds id=%d %x, its fields give %x", t, round, p.ID, p.Data, want)
 						return
 					}
 					var wire bytes.Buffer
@@ -85,7 +96,7 @@ func marshalScenario(threads int, compress bool) Scenario {
 					frame := append([]byte(nil), wire.Bytes()...)
 					sched.Point("after-pack")
 					if !bytes.Equal(p.Data, want) {
-						x.fail("marshalled packet changed while it was packed (foreign bytes): thread %d round %d holds %x, its fields give %x", t, round, p.Data, want)
+						x.fail("marshalled packet changed while being packed: thread %d round %d holds %x, its fields give %x", t, round, p.Data, want)
 						return
 					}
 					var got pk.Packet
@@ -105,7 +116,7 @@ func marshalScenario(threads int, compress bool) Scenario {
 					}
 					sched.Point("after-scan")
 					if got.ID != int32(t) || int32(gn) != n || string(gs) != s || !bytes.Equal(garr, arr) {
-						x.fail("scanned fields differ from the ones sent (foreign bytes): thread %d round %d sent (%d,%q,%x) but scanned id=%d (%d,%q,%x)", t, round, n, s, arr, got.ID, gn, gs, garr)
+						x.fail("scanned fields differ from the ones sent: thread %d round %d sent (%d,%q,%x) but scanned id=%d (%d,%q,%x)", t, round, n, s, arr, got.ID, gn, gs, garr)
 						return
 					}
 				}
@@ -185,10 +196,20 @@ func nbtValueScenario(threads int) Scenario {
 			}
 			want[k] = b
 		}
+		// a struct type that is new to the process (and so to the per-type cache) in every execution
+		// and in every iteration of the free-running pass: all threads meet in the cache-miss path
+		fresh := freshStruct(atomic.LoadInt64(&freeIter))
+		freshOut := make([][]byte, threads+1)
 		var hs []sched.Handle
 		for t := 1; t <= threads; t++ {
 			t := t
 			hs = append(hs, sched.GoJoinable(fmt.Sprintf("nbtval%d", t), func() {
+				out, err := nbt.Marshal(freshValue(fresh, t).Interface())
+				if err != nil {
+					x.fail("concurrent Marshal of a value of a new struct type failed: thread %d: %v", t, err)
+					return
+				}
+				freshOut[t] = out
 				for round := 0; round < 2; round++ {
 					// thread 1: {c empty}, {both empty}; thread 2: {both present}, {b empty}; thread 3: {b empty}, {c empty}
 					k := (2*t + round) % len(omitMenu)
@@ -199,24 +220,26 @@ func nbtValueScenario(threads int) Scenario {
 					if (t+round)%2 == 0 {
 						got, err := nbt.Marshal(val)
 						if err != nil || !bytes.Equal(got, want[k]) {
-							x.fail("concurrent Marshal differs from the same value encoded alone: thread %d value %d gave %x (err %v), alone %x", t, k, got, err, want[k])
+							x.fail("concurrent Marshal differs from the value alone: thread %d value %d gave %x (err %v), alone %x", t, k, got, err, want[k])
 							return
 						}
 						var back omitProbe[omitConc]
 						if err := nbt.Unmarshal(want[k], &back); err != nil || !reflect.DeepEqual(back, val) {
-							x.fail("concurrent Unmarshal differs from the value that was encoded: thread %d value %d gave %+v (err %v), encoded %+v", t, k, back, err, val)
+							x.fail("concurrent Unmarshal differs from encoded value: thread %d value %d gave %+v (err %v), encoded %+v", t, k, back, err, val)
 							return
 						}
 					} else {
+						// the streaming entry points, on a reader and a writer that block (scheduling point at
+						// every Write and every bulk Read): peers run in the middle of the document
 						var back omitProbe[omitConc]
-						if err := nbt.Unmarshal(want[k], &back); err != nil || !reflect.DeepEqual(back, val) {
-							x.fail("concurrent Unmarshal differs from the value that was encoded: thread %d value %d gave %+v (err %v), encoded %+v", t, k, back, err, val)
+						if _, err := nbt.NewDecoder(&pointReader{r: bytes.NewReader(want[k])}).Decode(&back); err != nil || !reflect.DeepEqual(back, val) {
+							x.fail("concurrent Decode differs from encoded value: thread %d value %d gave %+v (err %v), encoded %+v", t, k, back, err, val)
 							return
 						}
-						var buf bytes.Buffer
-						err := nbt.NewEncoder(&buf).Encode(val, "")
-						if err != nil || !bytes.Equal(buf.Bytes(), want[k]) {
-							x.fail("concurrent Encode differs from the same value encoded alone: thread %d value %d gave %x (err %v), alone %x", t, k, buf.Bytes(), err, want[k])
+						var w pointWriter
+						err := nbt.NewEncoder(&w).Encode(val, "")
+						if err != nil || !bytes.Equal(w.buf.Bytes(), want[k]) {
+							x.fail("concurrent Encode differs from the value alone: thread %d value %d gave %x (err %v), alone %x", t, k, w.buf.Bytes(), err, want[k])
 							return
 						}
 					}
@@ -226,5 +249,168 @@ func nbtValueScenario(threads int) Scenario {
 		for _, h := range hs {
 			h.Join()
 		}
+		// the threads are gone: the same values once more, alone
+		for t := 1; t <= threads && x.Fail == ""; t++ {
+			val := freshValue(fresh, t)
+			alone, err := nbt.Marshal(val.Interface())
+			if err != nil || !bytes.Equal(alone, freshOut[t]) {
+				x.fail("concurrent Marshal on a new type differs from the value alone: thread %d gave %x, alone %x (err %v)", t, freshOut[t], alone, err)
+				return
+			}
+			back := reflect.New(fresh)
+			if err := nbt.Unmarshal(freshOut[t], back.Interface()); err != nil || !reflect.DeepEqual(back.Elem().Interface(), val.Interface()) {
+				x.fail("document of a new type does not decode to its value: thread %d gave %+v (err %v), encoded %+v", t, back.Elem().Interface(), err, val.Interface())
+				return
+			}
+		}
 	}}
+}
+
+// pointWriter / pointReader: a stream that may block, i.e. a scheduling point, at every Write and at
+// every Read of more than one byte (single bytes come from a buffered reader in practice).
+type pointWriter struct{ buf bytes.Buffer }
+
+func (w *pointWriter) Write(p []byte) (int, error) {
+	sched.Point("nbt.w.Write")
+	return w.buf.Write(p)
+}
+
+type pointReader struct{ r *bytes.Reader }
+
+func (r *pointReader) Read(p []byte) (int, error) {
+	if len(p) > 1 {
+		sched.Point("nbt.r.Read")
+	}
+	return r.r.Read(p)
+}
+
+// freshStruct returns a struct type whose identity depends on k (one field is named after it).
+func freshStruct(k int64) reflect.Type {
+	return reflect.StructOf([]reflect.StructField{
+		{Name: "A", Type: reflect.TypeOf(int32(0)), Tag: `nbt:"a"`},
+		{Name: fmt.Sprintf("F%d", k), Type: reflect.TypeOf(""), Tag: `nbt:"f,omitempty"`},
+		{Name: "Z", Type: reflect.TypeOf([]int64(nil)), Tag: `nbt:"z"`},
+	})
+}
+
+// freshValue: thread t's value of that type; even threads leave the omitempty field empty.
+func freshValue(typ reflect.Type, t int) reflect.Value {
+	v := reflect.New(typ).Elem()
+	v.Field(0).SetInt(int64(t))
+	if t%2 == 1 {
+		v.Field(1).SetString(fmt.Sprintf("s%d", t))
+	}
+	v.Field(2).Set(reflect.ValueOf([]int64{int64(t), -2}))
+	return v
+}
+
+// ---- S10: independent connections (net.Conn over a private socket each) ----
+//
+// Every thread owns one net.Conn wrapped around its own in-memory loop-back socket, with its own
+// compression threshold and its own cipher streams (key and IV differ per thread). It writes a
+// packet, lets the peers run, reads the packet back from its socket and compares. The socket has a
+// scheduling point at every Write and at every bulk Read, as a real socket would block there.
+
+type loopSocket struct {
+	buf    bytes.Buffer
+	closed bool
+}
+
+func (l *loopSocket) Write(p []byte) (int, error) {
+	sched.Point("socket.Write")
+	return l.buf.Write(p)
+}
+
+func (l *loopSocket) Read(p []byte) (int, error) {
+	if len(p) > 1 {
+		sched.Point("socket.Read")
+	}
+	return l.buf.Read(p)
+}
+func (l *loopSocket) Close() error                     { l.closed = true; return nil }
+func (l *loopSocket) LocalAddr() net.Addr              { return loopAddr{} }
+func (l *loopSocket) RemoteAddr() net.Addr             { return loopAddr{} }
+func (l *loopSocket) SetDeadline(time.Time) error      { return nil }
+func (l *loopSocket) SetReadDeadline(time.Time) error  { return nil }
+func (l *loopSocket) SetWriteDeadline(time.Time) error { return nil }
+
+type loopAddr struct{}
+
+func (loopAddr) Network() string { return "loop" }
+func (loopAddr) String() string  { return "loop" }
+
+func connScenario(threads, threshold int, encrypt bool) Scenario {
+	name := fmt.Sprintf("connections/threads=%d/threshold=%d/encrypt=%v", threads, threshold, encrypt)
+	return Scenario{Name: name, Horizon: 8000, Body: func(x *Exec) {
+		var hs []sched.Handle
+		for t := 1; t <= threads; t++ {
+			t := t
+			hs = append(hs, sched.GoJoinable(fmt.Sprintf("conn%d", t), func() {
+				sock := &loopSocket{}
+				c := mcnet.WrapConn(sock)
+				c.SetThreshold(threshold)
+				if encrypt {
+					key := bytes.Repeat([]byte{byte(0xA0 + t)}, 16)
+					block, err := aes.NewCipher(key)
+					if err != nil {
+						panic(err)
+					}
+					c.SetCipher(CFB8.NewCFB8Encrypt(block, key), CFB8.NewCFB8Decrypt(block, key))
+				}
+				var got pk.Packet // one destination for all rounds, as a connection's read loop has
+				for round := 0; round < marshalRounds; round++ {
+					n, s, arr := marshalFields(t, round)
+					if err := c.WritePacket(pk.Marshal(int32(t), pk.VarInt(n), pk.String(s), pk.ByteArray(arr))); err != nil {
+						x.fail("WritePacket failed: thread %d round %d: %v", t, round, err)
+						return
+					}
+					sched.Point("after-write-packet")
+					if err := c.ReadPacket(&got); err != nil {
+						x.fail("ReadPacket of own packet failed: thread %d round %d: %v", t, round, err)
+						return
+					}
+					sched.Point("after-read-packet")
+					var (
+						gn   pk.VarInt
+						gs   pk.String
+						garr pk.ByteArray
+					)
+					if err := got.Scan(&gn, &gs, &garr); err != nil {
+						x.fail("Scan of own packet failed: thread %d round %d: %v (packet %x)", t, round, err, got.Data)
+						return
+					}
+					if got.ID != int32(t) || int32(gn) != n || string(gs) != s || !bytes.Equal(garr, arr) {
+						x.fail("connection delivered foreign bytes: thread %d round %d sent (%d,%q,%x) but received id=%d (%d,%q,%x)", t, round, n, s, arr, got.ID, gn, gs, garr)
+						return
+					}
+				}
+			}))
+		}
+		for _, h := range hs {
+			h.Join()
+		}
+	}}
+}
+
+// reportMenus names the finite menus of the codec scenarios in the evidence file.
+func reportMenus() {
+	rep.Extra("marshal_scenario", map[string]any{
+		"entry_points":           "pk.Marshal, pk.Builder.WriteField/Packet, Packet.Pack, Packet.UnPack, Packet.Scan",
+		"packets_per_thread":     marshalRounds,
+		"bytearray_size_classes": marshalSizes[:],
+		"thresholds":             marshalThresholds,
+		"oracle":                 "the packet a thread holds after peers ran equals the bytes of its own fields; scanned fields equal the fields sent",
+	})
+	rep.Extra("connection_scenario", map[string]any{
+		"entry_points": "net.WrapConn, Conn.SetThreshold, Conn.SetCipher (CFB8, key per thread), Conn.WritePacket, Conn.ReadPacket on a private loop-back socket per thread",
+		"menu":         "quick: threshold -1 and 32 with encryption; thorough adds threshold 4096 without encryption and 3 threads",
+	})
+	rep.Extra("nbt_value_scenario", map[string]any{
+		"omitempty_value_menu": "two omitempty fields: both present, first empty, second empty, both empty; plus a ,list field",
+		"reference":            "the same value encoded alone on a struct type with the same fields that no other value used (phantom type parameter)",
+		"streaming":            "nbt.NewEncoder(w).Encode / nbt.NewDecoder(r).Decode on streams with a scheduling point at every Write and every bulk Read",
+		"new_type_per_run":     "reflect.StructOf type named after the iteration: all threads start in the cache-miss path; compared with the same values encoded after the threads ended",
+	})
+	rep.Count("codec_scenarios_marshal", int64(len(marshalThresholds)))
+	rep.Count("nbt_omitempty_menu_values", int64(len(omitMenu)))
 }
